@@ -137,6 +137,11 @@ func buildModelSchema(root protoreflect.MessageDescriptor) *modelSchema {
 		}
 		ms.index[md.FullName()] = len(ms.mds)
 		ms.mds = append(ms.mds, md)
+		if md.ParentFile().Path() != root.ParentFile().Path() {
+			// a message type of another .proto file (an imported file that is not generated with this one, a well-known type): it is
+			// decoded by its own runtime, whose acceptance of malformed input is not part of the model of the generated code
+			ms.foreign = true
+		}
 		if strings.HasPrefix(md.ParentFile().Path(), "google/protobuf/") {
 			ms.foreign = true
 			if md.ExtensionRanges().Len() > 0 {
